@@ -30,13 +30,15 @@ pub enum Behaviour {
     OkLate,
     ProcessingThenOk,
     ProcessingOnly,
+    /// answer OK and close the channel at once (what a worker does when it exits after a stop)
+    OkThenClose,
 }
 
 impl Behaviour {
-    pub const ALL: [Behaviour; 8] = [Behaviour::Ok, Behaviour::Failure, Behaviour::Silent, Behaviour::Close, Behaviour::DuplicateOk, Behaviour::OkLate, Behaviour::ProcessingThenOk, Behaviour::ProcessingOnly];
+    pub const ALL: [Behaviour; 9] = [Behaviour::Ok, Behaviour::Failure, Behaviour::Silent, Behaviour::Close, Behaviour::DuplicateOk, Behaviour::OkLate, Behaviour::ProcessingThenOk, Behaviour::ProcessingOnly, Behaviour::OkThenClose];
     /// did the worker acknowledge the request successfully and in time?
     pub fn acknowledges(self) -> bool {
-        matches!(self, Behaviour::Ok | Behaviour::DuplicateOk | Behaviour::ProcessingThenOk)
+        matches!(self, Behaviour::Ok | Behaviour::DuplicateOk | Behaviour::ProcessingThenOk | Behaviour::OkThenClose)
     }
 }
 
@@ -99,6 +101,11 @@ impl FakeWorker {
                     self.send(&WorkerResponse::ok(id));
                 }
                 Behaviour::ProcessingOnly => self.send(&WorkerResponse::processing(id)),
+                Behaviour::OkThenClose => {
+                    self.send(&WorkerResponse::ok(id));
+                    self.channel = None;
+                    return true;
+                }
             }
         }
         if let Some(ch) = self.channel.as_mut() {
